@@ -37,6 +37,18 @@ CLAIMED = {
  "C14": ("table-oracle monitor over reflect.MakeFunc-built handlers, reflective path vs built-in fast path, custom ReturnHandler",
          "Status, body and whether the next handler ran equal the statement's table for every generated value of every supported shape at every generated chain position, on both invocation paths. Exploration.",
          "Non-nil zero-length values are not judged; ints are valid status codes.", "DESIGN.md §5 C14"),
+ "C15": ("trace monitor with injected panics (value kinds x sites x phases) over request sequences, in the three environments sequentially",
+         "For every generated chain, site, phase and panic value nothing escapes ServeHTTP, the status is 500 iff nothing had been sent, detail appears only in development, middleware before Recovery completes, and healthy follow-up requests equal their baseline. Exploration.",
+         "Panics are raised after Recovery in the chain; the environment is process-global so phases are sequential.", "DESIGN.md §5 C15"),
+ "C16": ("outcome-function monitor over a fixture tree with unique content per file, universal outside-marker predicate, faulty http.FileSystem injection",
+         "For every generated (option set, method, path) the response is what an independent outcome function over the on-disk fixture predicts, never contains bytes of a file outside the directory, and a non-served request leaves no trace and lets the chain continue. Exploration.",
+         "No symlinks, no Range requests; paths with NUL/backslash judged by the safety predicates only.", "DESIGN.md §5 C16"),
+ "C17": ("decode-back monitor: recorded status / Content-Type / body decoded with encoding/json and encoding/xml",
+         "Every generated Render call yields the given status, the expected Content-Type and a body that decodes back to the input and equals the standard encoding for the configured indentation; Render is injectable in later handlers wherever Renderer is installed. Exploration.",
+         "Values are encodable.", "DESIGN.md §5 C17"),
+ "C18": ("accessor-rule monitor (oracle written with strconv/net/url) and cookie round-trip monitor incl. all 256 single bytes",
+         "Every accessor reading of every generated request follows the present/default/zero rule with standard parsing; every generated cookie value (all single bytes exhaustively) reads back byte for byte. Exploration.",
+         "`present` is what net/url parses.", "DESIGN.md §5 C18"),
 }
 
 NOT_YET = {
